@@ -254,11 +254,15 @@ theorem EndPending.stepOp {r : Realm} (h : EndPending r) (op : Op) : EndPending 
   cases op with
   | join k isLocal details roles cap =>
     rw [stepOp_join]
+    split
+    · exact h
     exact h.paired (Paired.of_same rfl rfl ⟨_, rfl⟩)
   | msg k m => rw [stepOp_msg]; exact h.paired (paired_recvMsg ..)
   | buffer k => rw [stepOp_buffer]; exact h
   | drop k =>
     rw [stepOp_drop]
+    split
+    · exact h
     split
     · exact h
     · exact h.paired (paired_end _ _ _)
@@ -328,8 +332,8 @@ theorem EndPending.advance : ∀ (fuel : Nat) {r : Realm} (target : Nat), RealmI
       obtain ⟨h3, h4⟩ := drain_inv taskFuel h1 (by rw [h1p]; exact hp)
       exact EndPending.advance fuel target h3 h4 (CtlInv.drain taskFuel hc1.1) (EndPending.drain taskFuel hc1.1 hc1.2)
 
-theorem EndPending.step {r : Realm} (hi : RealmInv r) (hp : FuelOnly r.panic) (hc : CtlInv r) (h : EndPending r)
-    (op : Op) (hop : OpC r op) : EndPending (r.step op).2 := by
+theorem EndPending.step' {r : Realm} (hi : RealmInv r) (hp : FuelOnly r.panic) (hc : CtlInv r) (h : EndPending r)
+    (op : Op) : EndPending (r.step op).2 := by
   by_cases ht : ∃ ms, op = .tick ms
   · obtain ⟨ms, rfl⟩ := ht
     rw [step_tick]
@@ -337,14 +341,23 @@ theorem EndPending.step {r : Realm} (hi : RealmInv r) (hp : FuelOnly r.panic) (h
     exact (EndPending.advance _ _ hi hp hc h).congr f1 f2 f5
   · rw [step_of_not_tick r op (fun ms e => ht ⟨ms, e⟩)]
     obtain ⟨f1, f2, _, _, f5, _⟩ := flush_ctl (Realm.drain taskFuel (r.stepOp op))
-    exact (EndPending.drain _ (hc.stepOp op hop) (h.stepOp op)).congr f1 f2 f5
+    exact (EndPending.drain _ (hc.stepOp' op) (h.stepOp op)).congr f1 f2 f5
 
-theorem ReachableC.endPending {cfg : Config} {r : Realm} (h : ReachableC cfg r) : EndPending r := by
+theorem EndPending.step {r : Realm} (hi : RealmInv r) (hp : FuelOnly r.panic) (hc : CtlInv r) (h : EndPending r)
+    (op : Op) (_hop : OpC r op) : EndPending (r.step op).2 := EndPending.step' hi hp hc h op
+
+/-- in every reachable realm each session marked as ending has its departure pending (as a task) or
+    deferred (its handler is in the yield retry loop) — no hypothesis on the inputs -/
+theorem _root_.Nexus.L2.Realm.Reachable.endPending {cfg : Config} {r : Realm} (h : Realm.Reachable cfg r) :
+    EndPending r := by
   induction h with
   | init h =>
     obtain ⟨_, _, he⟩ := create_metaSafe h
     intro k hk; rw [he] at hk; cases hk
-  | step op hr hop ih => exact ih.step hr.reachable.inv.1 hr.reachable.inv.2 hr.ctl op hop
+  | step op hr ih => exact ih.step' hr.inv.1 hr.inv.2 hr.ctl op
+
+theorem ReachableC.endPending {cfg : Config} {r : Realm} (h : ReachableC cfg r) : EndPending r :=
+  h.reachable.endPending
 
 /-- AT QUIESCENCE only sessions whose handler is in the yield retry loop are still marked as ending -/
 theorem ending_only_busy {r : Realm} (hc : CtlInv r) (h : EndPending r) (ht : r.tasks = []) :
